@@ -276,10 +276,25 @@ func runC17(c *Ctx) {
 		if ch.Bool(40, "cookie") {
 			rcfg.Byz.HRRCookie = []byte("invalid-hrr-cookie")
 		}
-		o := RunConn(c, w, &ConnSpec{ID: f.IDI.ID, Spec: f.Spec(), CCfg: negCfg(), Peer: PeerRef, RefCfg: rcfg, Payload: [][]byte{[]byte("no")},
+		// modifier: the caller's Config value is shared with a second connection of another fingerprint
+		// (other groups) that is built while the first ClientHello is in flight - what this client
+		// offered is the hello on the wire, never the shared Config
+		iccfg := negCfg()
+		noise := ch.Bool(30, "shared-config-noise")
+		if noise {
+			pol := []IDInfo{{"Firefox_120", tls.HelloFirefox_120}, {"Firefox_105", tls.HelloFirefox_105}, {"Chrome_100", tls.HelloChrome_100}, {"Golang", tls.HelloGolang}}[ch.Pick(4, "noise-id")]
+			at := ch.Range(0, 14, "noise-at")
+			w.Go("noise", func() {
+				simrt.WaitSteps(at)
+				u := tls.UClient(simnet.NewLink("noise").A, iccfg, pol.ID)
+				u.BuildHandshakeState()
+			})
+			c.Fault("shared-config", 1)
+		}
+		o := RunConn(c, w, &ConnSpec{ID: f.IDI.ID, Spec: f.Spec(), CCfg: iccfg, Peer: PeerRef, RefCfg: rcfg, Payload: [][]byte{[]byte("no")},
 			Setup: func(l *simnet.Link) { l.Frag = ch.Bool(40, "frag") }})
 		c.Finish(w, true)
-		c.R.Class += fmt.Sprintf(" invalid-hrr=%s g=%d shares=%v cookie=%v", what, g, of.Shares, len(rcfg.Byz.HRRCookie) > 0)
+		c.R.Class += fmt.Sprintf(" invalid-hrr=%s g=%d shares=%v cookie=%v noise=%v", what, g, of.Shares, len(rcfg.Byz.HRRCookie) > 0, noise)
 		if c.R.Violation != nil {
 			return
 		}
@@ -402,6 +417,10 @@ func runC17(c *Ctx) {
 		diff("key-share-not-single-requested-group", "CH2 key_share groups %v, requested %d", gs, g)
 	} else if len(b.KeyShares[0].Data) != shareSize[g] {
 		diff("key-share-size", "group %d share is %d bytes", g, len(b.KeyShares[0].Data))
+	} else if bytes.Contains(a.Raw, b.KeyShares[0].Data) {
+		// "fresh": the new share is not key material that already went out in the first hello
+		// (e.g. the X25519 half of a hybrid share)
+		diff("key-share-not-fresh", "the %d-byte share of group %d in CH2 already occurs in CH1", len(b.KeyShares[0].Data), g)
 	}
 	if cookie == nil && b.Cookie != nil {
 		diff("cookie-invented", "CH2 carries a cookie although the server sent none")
